@@ -18,6 +18,7 @@
  * Copyright (C) 2014 Simon Newton
  */
 
+#include <stdint.h>
 #include <string>
 #include "ola/web/JsonPointer.h"
 #include "ola/StringUtils.h"
@@ -101,6 +102,30 @@ bool JsonPointer::IsPrefixOf(const JsonPointer &other) const {
     }
   }
   return other_iter != other.m_tokens.end();
+}
+
+bool JsonPointer::TokenToIndex(const string &token, unsigned int *index) {
+  // UINT32_MAX has 10 digits
+  if (token.empty() || token.size() > 10) {
+    return false;
+  }
+  if (token[0] == '0' && token.size() > 1) {
+    return false;
+  }
+
+  uint64_t value = 0;
+  for (string::const_iterator iter = token.begin(); iter != token.end();
+       ++iter) {
+    if (*iter < '0' || *iter > '9') {
+      return false;
+    }
+    value = 10 * value + (*iter - '0');
+  }
+  if (value > UINT32_MAX) {
+    return false;
+  }
+  *index = static_cast<unsigned int>(value);
+  return true;
 }
 
 string JsonPointer::EscapeString(const string &input) {
